@@ -261,6 +261,9 @@ package tcp
 //@   requires e != nil && e.keepalive.timer.timer != nil
 //@   modifies e.keepalive.unacked, e.keepalive.timer.state, e.keepalive.timer.target, e.keepalive.timer.runtimeTarget
 
+// C04: every data segment handed to sendSegment is at most maxPayloadSize bytes (the peer's MSS
+// as negotiated) and ends at or before the right edge sndUna+sndWnd of the peer's window
+// (serial-number order; windows up to 2^30 as allowed by window scaling).
 // sendData: the congestion window is only ever lowered here (to the initial window after an
 // idle period, never during recovery); every segment without FIN that is emitted is counted
 // in outstanding, and outstanding is raised only while it is below the window. The two
@@ -271,6 +274,8 @@ package tcp
 //@   ensures s.sndCwnd == old(s.sndCwnd) || (s.sndCwnd == InitialCwnd && old(s.sndCwnd) > InitialCwnd && !old(s.fr.active))
 //@   ensures s.outstanding >= old(s.outstanding) && (s.outstanding == old(s.outstanding) || s.outstanding <= s.sndCwnd)
 //@   ensures ghost(sentNonFin) - old(ghost(sentNonFin)) == s.outstanding - old(s.outstanding)
+//@   at_call sendSegment requires implies(flags & flagFin == 0, data.size <= imax(s.maxPayloadSize, 0))
+//@   at_call sendSegment requires implies(flags & flagFin == 0 && s.sndWnd <= 0x40000000 && data.size >= 0, int32(uint32(seq) + uint32(data.size) - uint32(s.sndUna + seqnum.Value(s.sndWnd))) <= 0)
 //@   loop 1 invariant s.outstanding >= old(s.outstanding) && (s.outstanding == old(s.outstanding) || s.outstanding <= s.sndCwnd) && s.outstanding <= 1 << 41
 //@   loop 1 invariant ghost(sentNonFin) - old(ghost(sentNonFin)) == s.outstanding - old(s.outstanding)
 //@   modifies modset(NETSEND)
